@@ -76,7 +76,12 @@ impl<'a, TPrinter: Printer> FileExecutor<'a, TPrinter> {
         let config = self.execution_engine.execution_config();
         self.execution_engine.execute_joined_table(self.running.clone())?;
 
-        for reader in std::mem::take(&mut self.readers).into_iter() {
+        'readers: for reader in std::mem::take(&mut self.readers).into_iter() {
+            // The limit holds for the input as a whole (all files), and LIMIT 0 reads nothing
+            if self.execution_engine.reached_limit() {
+                break;
+            }
+
             for line in reader.lines() {
                 #[cfg(feature="verif_hooks")]
                 crate::verif_hooks::probe("file_line");
@@ -100,7 +105,7 @@ impl<'a, TPrinter: Printer> FileExecutor<'a, TPrinter> {
                     }
 
                     if output.reached_limit {
-                        break;
+                        break 'readers;
                     }
                 }
             }
@@ -211,6 +216,10 @@ impl<'a> FollowFileExecutor<'a> {
     pub fn execute(&mut self) -> ExecutionResult<()> {
         if self.execution_engine.is_join() {
             return Err(ExecutionError::JoinNotSupported);
+        }
+
+        if self.execution_engine.reached_limit() {
+            return Ok(());
         }
 
         for input_line in FollowFileIterator::new(self.reader.take().unwrap()) {
